@@ -11,7 +11,35 @@ From Coq Require Import Lia.
 
 Local Open Scope Z_scope.
 
-Definition world_of (s : state) : world := mkWorld (led s) (sup s) (pools s) (now s).
+Definition world_of (s : state) : world := mkWorld (led s) (sup s) (pools s) (now s) (par s).
+
+(** an observed world that shows the same balances, supplies, registry, time and parameters as a
+    state (the ledger need not be the same association list) *)
+Record wsim (w : world) (s : state) : Prop := mkWsim {
+  ws_led : forall a d, bal (w_led w) a d = bal (led s) a d;
+  ws_sup : forall d, supv (w_sup w) d = supply s d;
+  ws_pools : w_pools w = pools s;
+  ws_now : w_now w = now s;
+  ws_par : w_par w = par s
+}.
+
+Lemma wsim_world_of s : wsim (world_of s) s.
+Proof. constructor; reflexivity. Qed.
+
+Lemma wsim_ML w s w' s' f : wsim w s -> wsim w' s' ->
+  (forall a d, bal (led s') a d = bal (led s) a d + f a d) ->
+  forall a d, bal (w_led w') a d = bal (w_led w) a d + f a d.
+Proof. intros Hw Hw' H a d. rewrite (ws_led _ _ Hw'), (ws_led _ _ Hw). apply H. Qed.
+
+Lemma wsim_MS w s w' s' g : wsim w s -> wsim w' s' ->
+  (forall d, supply s' d = supply s d + g d) ->
+  forall d, supv (w_sup w') d = supv (w_sup w) d + g d.
+Proof. intros Hw Hw' H d. rewrite (ws_sup _ _ Hw'), (ws_sup _ _ Hw). apply H. Qed.
+
+Ltac wnorm Hw Hw' :=
+  rewrite ?(ws_pools _ _ Hw), ?(ws_pools _ _ Hw'), ?(ws_now _ _ Hw), ?(ws_now _ _ Hw'),
+          ?(ws_par _ _ Hw), ?(ws_par _ _ Hw');
+  rewrite ?(ws_led _ _ Hw), ?(ws_led _ _ Hw'), ?(ws_sup _ _ Hw), ?(ws_sup _ _ Hw').
 
 Lemma value_leb_true S T L S' T' L' :
   (0 < L -> 0 < L' -> S * T * (L' * L') <= S' * T' * (L * L)) -> value_leb (S, T, L) (S', T', L') = true.
@@ -21,26 +49,27 @@ Proof.
   apply Z.leb_le. auto.
 Qed.
 
-Lemma mono_model s m :
-  Inv s -> sender_ok m ->
-  forallb (fun e : Z * Z => value_leb (view (world_of s) (fst e) (snd e)) (view (world_of (step s m)) (fst e) (snd e)))
+Lemma mono_model s m w w' :
+  Inv s -> sender_ok m -> wsim w s -> wsim w' (step s m) ->
+  forallb (fun e : Z * Z => value_leb (view w (fst e) (snd e)) (view w' (fst e) (snd e)))
           (pools s) = true.
 Proof.
-  intros I Hs. apply forallb_forall. intros [cp n] Hin. cbn [fst snd].
-  unfold view, world_of; cbn [w_led w_sup fst snd]. apply value_leb_true. intros HL HL'.
+  intros I Hs Hw Hw'. apply forallb_forall. intros [cp n] Hin. cbn [fst snd].
+  unfold view. wnorm Hw Hw'. apply value_leb_true. intros HL HL'.
   exact (step_value_monotone_lemma s m cp n I Hs Hin HL HL').
 Qed.
 
-Lemma leg_code_model (buy : bool) s s' n din dout paid recv :
+Lemma leg_code_model (buy : bool) s s' w w' n din dout paid recv :
+  wsim w s -> wsim w' s' ->
   Inv s -> 0 <= (if buy then recv else paid) -> priced buy s n din dout paid recv ->
   bal (led s') (pool_acct n) din = bal (led s) (pool_acct n) din + paid ->
   bal (led s') (pool_acct n) dout = bal (led s) (pool_acct n) dout - recv ->
-  leg_code (P18 - p_fee (par s)) buy (world_of s) (world_of s') n din dout = 0.
+  leg_code (P18 - p_fee (par s)) buy w w' n din dout = 0.
 Proof.
-  intros I H0 Hp E1 E2.
+  intros Hw Hw' I H0 Hp E1 E2.
   pose proof (priced_rule_lemma buy s n din dout paid recv I H0 Hp) as F. cbv zeta in F.
   destruct F as (Fx & Fy & Fp & Fr & Frule & Fext).
-  unfold leg_code, world_of; cbn [w_led]. rewrite E1, E2.
+  unfold leg_code. wnorm Hw Hw'. rewrite E1, E2.
   set (x := bal (led s) (pool_acct n) din) in *. set (y := bal (led s) (pool_acct n) dout) in *.
   replace (x + paid - x) with paid by lia. replace (y - (y - recv)) with recv by lia.
   set (ph := P18 - p_fee (par s)) in *.
@@ -53,44 +82,69 @@ Proof.
   - destruct (Z.leb_spec (x * P18 * y) ((x * P18 + paid * ph) * (y - (recv + 1)))) as [Hc|_]; [lia|reflexivity].
 Qed.
 
+(** the recipient is not the escrow address of a pool the order trades on *)
+Lemma rcpt_not_leg_single s rcpt din dout n0 :
+  lpt_of_denoms s din dout = Ret n0 ->
+  rcpt_is_leg_pool (pools s) rcpt din dout = false -> rcpt <> pool_acct n0.
+Proof.
+  intros Hn Hr. destruct (lpt_of_denoms_inv _ _ _ _ Hn) as (_ & [(Hdi & Hpo)|(Hdo & Hdi & Hpo)]);
+    unfold rcpt_is_leg_pool, leg_pools, pool_lookup in Hr; unfold pool_of in Hpo.
+  - subst din. rewrite Z.eqb_refl, Hpo in Hr. simpl in Hr. rewrite orb_false_r in Hr. apply Z.eqb_neq in Hr. exact Hr.
+  - subst dout. destruct (Z.eqb_spec din std) as [|_]; [contradiction|]. rewrite Z.eqb_refl, Hpo in Hr.
+    simpl in Hr. rewrite orb_false_r in Hr. apply Z.eqb_neq in Hr. exact Hr.
+Qed.
+
+Lemma rcpt_not_leg_double s rcpt din dout n1 n2 :
+  din <> std -> dout <> std -> pool_of s din = Some n1 -> pool_of s dout = Some n2 ->
+  rcpt_is_leg_pool (pools s) rcpt din dout = false -> rcpt <> pool_acct n1 /\ rcpt <> pool_acct n2.
+Proof.
+  intros Hdi Hdo H1 H2 Hr. unfold rcpt_is_leg_pool, leg_pools, pool_lookup in Hr. unfold pool_of in H1, H2.
+  destruct (Z.eqb_spec din std) as [|_]; [contradiction|]. destruct (Z.eqb_spec dout std) as [|_]; [contradiction|].
+  rewrite H1, H2 in Hr. simpl in Hr. rewrite orb_false_r in Hr. apply orb_false_iff in Hr. destruct Hr as (A & B).
+  apply Z.eqb_neq in A. apply Z.eqb_neq in B. auto.
+Qed.
+
 (** the deltas of the two pools of a routed swap, and of the pool of a single hop *)
-Lemma c01_swap_model s buy sender rcpt din ain dout aout deadline s' r :
-  Inv s -> is_pool_acct sender = false -> is_pool_acct rcpt = false ->
+Lemma c01_swap_model s buy sender rcpt din ain dout aout deadline s' r w w' :
+  wsim w s -> wsim w' s' ->
+  Inv s -> is_pool_acct sender = false -> rcpt_is_leg_pool (pools s) rcpt din dout = false ->
   exec_swap s buy sender rcpt din ain dout aout deadline = Ret (s', r) ->
   (if din =? std then
-     match pool_of s dout with Some n => leg_code (P18 - p_fee (par s)) buy (world_of s) (world_of s') n din dout | None => 2 end
+     match pool_of s dout with Some n => leg_code (P18 - p_fee (par s)) buy w w' n din dout | None => 2 end
    else if dout =? std then
-     match pool_of s din with Some n => leg_code (P18 - p_fee (par s)) buy (world_of s) (world_of s') n din dout | None => 2 end
+     match pool_of s din with Some n => leg_code (P18 - p_fee (par s)) buy w w' n din dout | None => 2 end
    else
      match pool_of s din, pool_of s dout with
-     | Some n1, Some n2 => first_nz [leg_code (P18 - p_fee (par s)) buy (world_of s) (world_of s') n1 din std;
-                                     leg_code (P18 - p_fee (par s)) buy (world_of s) (world_of s') n2 std dout]
+     | Some n1, Some n2 => first_nz [leg_code (P18 - p_fee (par s)) buy w w' n1 din std;
+                                     leg_code (P18 - p_fee (par s)) buy w w' n2 std dout]
      | _, _ => 2
      end) = 0.
 Proof.
-  intros I Hs Hr E.
+  intros Hw Hw' I Hs Hr E.
   destruct (exec_swap_spec _ _ _ _ _ _ _ _ _ _ _ E) as (_ & _ & _ & Hain & Haout & Hdd & sold & bought & SE & B).
   assert (H0 : 0 <= (if buy then bought else sold)) by (destruct buy; lia).
-  apply not_pool_le in Hs. apply not_pool_le in Hr.
+  apply not_pool_le in Hs.
   destruct SE as [n0 Hd Hn Hp M R | n1 n2 s1 mid Hdi Hdo Hn1 Hn2 Hp1 Hp2 M1 R1 M2 R2].
-  - destruct (lpt_of_denoms_inv _ _ _ _ Hn) as (_ & [(Hdi & Hpo)|(Hdo & Hdi & Hpo)]).
+  - pose proof (rcpt_not_leg_single _ _ _ _ _ Hn Hr) as Hrn.
+    destruct (lpt_of_denoms_inv _ _ _ _ Hn) as (_ & [(Hdi & Hpo)|(Hdo & Hdi & Hpo)]).
     + subst din. rewrite Z.eqb_refl. rewrite Hpo.
       destruct (inv_rng _ I _ _ (pool_of_In _ _ _ Hpo)) as (Hn0 & _).
       destruct M as (ML & _).
       pose proof (ML (pool_acct n0) std) as E1. pose proof (ML (pool_acct n0) dout) as E2.
       unfold sheet1 in E1, E2. ev_ind E1. ev_ind E2.
-      apply (leg_code_model buy s s' n0 std dout sold bought I H0 Hp); lia.
+      apply (leg_code_model buy s s' w w' n0 std dout sold bought Hw Hw' I H0 Hp); lia.
     + subst dout. destruct (Z.eqb_spec din std) as [|_]; [contradiction|]. rewrite Z.eqb_refl. rewrite Hpo.
       destruct (inv_rng _ I _ _ (pool_of_In _ _ _ Hpo)) as (Hn0 & _).
       destruct M as (ML & _).
       pose proof (ML (pool_acct n0) din) as E1. pose proof (ML (pool_acct n0) std) as E2.
       unfold sheet1 in E1, E2. ev_ind E1. ev_ind E2.
-      apply (leg_code_model buy s s' n0 din std sold bought I H0 Hp); lia.
+      apply (leg_code_model buy s s' w w' n0 din std sold bought Hw Hw' I H0 Hp); lia.
   - destruct (Z.eqb_spec din std) as [|_]; [contradiction|].
     destruct (Z.eqb_spec dout std) as [|_]; [contradiction|].
     destruct (lpt_of_denoms_inv _ _ _ _ Hn1) as (_ & [(Hx & _)|(_ & _ & Hpo1)]); [congruence|].
     destruct (lpt_of_denoms_inv _ _ _ _ Hn2) as (_ & [(_ & Hpo2)|(Hx & _)]); [|congruence].
     rewrite Hpo1, Hpo2.
+    destruct (rcpt_not_leg_double _ _ _ _ _ _ Hdi Hdo Hpo1 Hpo2 Hr) as (Hrn1 & Hrn2).
     apply pool_of_In in Hpo1. apply pool_of_In in Hpo2.
     assert (Hn12 : n1 <> n2).
     { intros Heq. subst n2. apply Hdd. exact (reg_same_n _ _ _ _ I Hpo1 Hpo2). }
@@ -116,34 +170,48 @@ Proof.
     destruct Hmid as (Hmid & Hp2').
     assert (H01 : 0 <= (if buy then mid else sold)) by (destruct buy; lia).
     assert (H02 : 0 <= (if buy then bought else mid)) by (destruct buy; lia).
-    rewrite (leg_code_model buy s s' n1 din std sold mid I H01 Hp1) by lia.
-    rewrite (leg_code_model buy s s' n2 std dout mid bought I H02 Hp2') by lia.
+    rewrite (leg_code_model buy s s' w w' n1 din std sold mid Hw Hw' I H01 Hp1) by lia.
+    rewrite (leg_code_model buy s s' w w' n2 std dout mid bought Hw Hw' I H02 Hp2') by lia.
     reflexivity.
 Qed.
 
 (** ** C01: the predicate on a model step *)
+Theorem c01_step_sim_ok s m s' r o w w' :
+  wsim w s -> wsim w' s' ->
+  Inv s -> sender_ok m -> exec s m = Ret (s', r) -> o_code o = 0 ->
+  c01_step (par s) m o w w' = 0.
+Proof.
+  intros Hw Hw' I Hs E Ho. pose proof Hw' as Hw2. rewrite <- (step_Ret _ _ _ _ E) in Hw2.
+  pose proof (mono_model s m w w' I Hs Hw Hw2) as Hm.
+  unfold c01_step. rewrite (ws_pools _ _ Hw). rewrite Hm. cbn [negb].
+  destruct m as [buy sender rcpt din ain dout aout deadline | | | | | | |]; try reflexivity.
+  rewrite Ho. change (0 =? 0) with true. cbn [negb orb].
+  destruct (rcpt_is_leg_pool (pools s) rcpt din dout) eqn:Hr; [reflexivity|].
+  unfold sender_ok in Hs. simpl in Hs, E.
+  exact (c01_swap_model s buy sender rcpt din ain dout aout deadline s' r w w' Hw Hw' I Hs Hr E).
+Qed.
+
 Theorem c01_step_model_ok s m s' r o :
   Inv s -> sender_ok m -> exec s m = Ret (s', r) -> o_code o = 0 ->
   c01_step (par s) m o (world_of s) (world_of s') = 0.
+Proof. intros. eapply c01_step_sim_ok; eauto using wsim_world_of. Qed.
+
+Theorem c01_step_sim_fail s m f o w w' :
+  wsim w s -> wsim w' s ->
+  Inv s -> sender_ok m -> exec s m = Fail f -> o_code o <> 0 ->
+  c01_step (par s) m o w w' = 0.
 Proof.
-  intros I Hs E Ho. pose proof (mono_model s m I Hs) as Hm. rewrite (step_Ret _ _ _ _ E) in Hm.
-  unfold c01_step. change (w_pools (world_of s)) with (pools s). rewrite Hm. cbn [negb].
-  destruct m as [buy sender rcpt din ain dout aout deadline | | | | | |]; try reflexivity.
-  rewrite Ho. change (0 =? 0) with true. cbn [negb orb].
-  destruct (is_pool_acct rcpt) eqn:Hr; [reflexivity|].
-  unfold sender_ok in Hs. simpl in Hs, E.
-  exact (c01_swap_model s buy sender rcpt din ain dout aout deadline s' r I Hs Hr E).
+  intros Hw Hw' I Hs E Ho. pose proof Hw' as Hw2. rewrite <- (failed_step_changes_nothing _ _ _ E) in Hw2.
+  pose proof (mono_model s m w w' I Hs Hw Hw2) as Hm.
+  unfold c01_step. rewrite (ws_pools _ _ Hw). rewrite Hm. cbn [negb].
+  destruct m; try reflexivity.
+  destruct (Z.eqb_spec (o_code o) 0) as [|_]; [contradiction|]. reflexivity.
 Qed.
 
 Theorem c01_step_model_fail s m f o :
   Inv s -> sender_ok m -> exec s m = Fail f -> o_code o <> 0 ->
   c01_step (par s) m o (world_of s) (world_of s) = 0.
-Proof.
-  intros I Hs E Ho. pose proof (mono_model s m I Hs) as Hm. rewrite (failed_step_changes_nothing _ _ _ E) in Hm.
-  unfold c01_step. change (w_pools (world_of s)) with (pools s). rewrite Hm. cbn [negb].
-  destruct m; try reflexivity.
-  destruct (Z.eqb_spec (o_code o) 0) as [|_]; [contradiction|]. reflexivity.
-Qed.
+Proof. intros. eapply c01_step_sim_fail; eauto using wsim_world_of. Qed.
 
 (** ** C02 *)
 
@@ -191,13 +259,38 @@ Proof.
   reflexivity.
 Qed.
 
+Lemma unchanged_sim w w' s : wsim w s -> wsim w' s -> unchanged w w' = true.
+Proof.
+  intros Hw Hw'. unfold unchanged. rewrite (ws_pools _ _ Hw), (ws_pools _ _ Hw'), pools_eqb_refl.
+  rewrite (delta_ok_intro (w_led w) (w_led w') (fun _ _ => 0) (fun _ _ => 0))
+    by (intros; try rewrite (ws_led _ _ Hw'), (ws_led _ _ Hw); lia).
+  rewrite (sdelta_ok_intro (w_sup w) (w_sup w') (fun _ => 0) (fun _ => 0))
+    by (intros; try rewrite (ws_sup _ _ Hw'), (ws_sup _ _ Hw); lia).
+  reflexivity.
+Qed.
+
+Lemma par_eqb_refl p : par_eqb p p = true.
+Proof. unfold par_eqb. rewrite !Z.eqb_refl. reflexivity. Qed.
+
+Theorem c02_step_sim_fail s m f o w w' :
+  wsim w s -> wsim w' s ->
+  exec s m = Fail f -> o_code o <> 0 ->
+  c02_step (par s) m o w w' = 0.
+Proof.
+  intros Hw Hw' E Ho.
+  assert (Hm : c02_main (par s) m o w w' = 0).
+  { unfold c02_main. destruct (Z.eqb_spec (o_code o) 0) as [|_]; [contradiction|]. cbn [negb].
+    rewrite (unchanged_sim w w' s Hw Hw'). reflexivity. }
+  assert (Hp : par_expected m o w = par s).
+  { unfold par_expected. rewrite (ws_par _ _ Hw). destruct m; try reflexivity.
+    destruct (Z.eqb_spec (o_code o) 0) as [|_]; [contradiction|reflexivity]. }
+  unfold c02_step. rewrite Hm, Hp. rewrite (ws_par _ _ Hw'). rewrite par_eqb_refl. reflexivity.
+Qed.
+
 Theorem c02_step_model_fail s m f o :
   exec s m = Fail f -> o_code o <> 0 ->
   c02_step (par s) m o (world_of s) (world_of s) = 0.
-Proof.
-  intros E Ho. unfold c02_step. destruct (Z.eqb_spec (o_code o) 0) as [|_]; [contradiction|]. cbn [negb].
-  rewrite unchanged_refl. reflexivity.
-Qed.
+Proof. intros. eapply c02_step_sim_fail; eauto using wsim_world_of. Qed.
 
 Lemma priced_buy_paid_pos s n din dout paid recv :
   Inv s -> 0 <= recv -> priced true s n din dout paid recv -> 0 < paid.
@@ -226,19 +319,21 @@ Proof.
   destruct buy; intros [A B]; apply andb_true_iff; split; try (apply Z.eqb_eq; exact A); try (apply Z.leb_le; exact B).
 Qed.
 
-Lemma c02_swap_model s buy a r din ain dout aout deadline s' res :
-  Inv s -> is_pool_acct a = false -> is_pool_acct r = false ->
+Lemma c02_swap_model s buy a r din ain dout aout deadline s' res w w' :
+  wsim w s -> wsim w' s' ->
+  Inv s -> is_pool_acct a = false -> rcpt_is_leg_pool (pools s) r din dout = false ->
   exec_swap s buy a r din ain dout aout deadline = Ret (s', res) ->
-  c02_swap buy a r din ain dout aout deadline (world_of s) (world_of s') = 0.
+  c02_swap buy a r din ain dout aout deadline w w' = 0.
 Proof.
-  intros I Hs Hr E.
+  intros Hw Hw' I Hs Hr E.
   destruct (exec_swap_spec _ _ _ _ _ _ _ _ _ _ _ E) as (_ & Hdl & _ & Hain & Haout & Hdd & sold & bought & SE & B).
   assert (H0 : 0 <= (if buy then bought else sold)) by (destruct buy; lia).
-  apply not_pool_le in Hs. apply not_pool_le in Hr.
+  apply not_pool_le in Hs.
   pose proof (bounds_bool buy sold bought ain aout B) as HB.
   assert (Hdlb : (now s <=? deadline) = true) by (apply Z.leb_le; exact Hdl).
   destruct SE as [n0 Hd Hn Hp M R | n1 n2 s1 mid Hdi Hdo Hn1 Hn2 Hp1 Hp2 M1 R1 M2 R2].
   - (* single hop *)
+    pose proof (rcpt_not_leg_single _ _ _ _ _ Hn Hr) as Hrn.
     assert (Hpos : 0 < sold /\ 0 < bought).
     { destruct buy; [|lia]. split; [|lia]. apply (priced_buy_paid_pos _ _ _ _ _ _ I H0 Hp). }
     destruct (lpt_of_denoms_inv _ _ _ _ Hn) as (_ & Hcase).
@@ -255,13 +350,13 @@ Proof.
     pose proof (ML a din) as E1. pose proof (ML r dout) as E2. unfold sheet1 in E1, E2. ev_ind E1. ev_ind E2.
     assert (Es : bal (led s) a din - bal (led s') a din = sold) by lia.
     assert (Eb : bal (led s') r dout - bal (led s) r dout = bought) by lia.
-    assert (Hsheet : delta_ok (led s) (led s')
+    assert (Hsheet : delta_ok (w_led w) (w_led w')
               (fun a' d' => ind (at_ a din a' d') (- sold) + ind (at_ r dout a' d') bought
                             + ind (at_ (pool_acct n0) din a' d') sold + ind (at_ (pool_acct n0) dout a' d') (- bought)) = true).
-    { apply (delta_ok_intro _ _ _ _ ML). intros a' d'. unfold sheet1. reflexivity. }
-    assert (Hsup : sdelta_ok (sup s) (sup s') (fun _ => 0) = true).
-    { apply (sdelta_ok_intro _ _ zero1); [exact MS|reflexivity]. }
-    unfold c02_swap, world_of. cbn [w_led w_sup w_pools w_now]. cbv zeta.
+    { apply (delta_ok_intro _ _ _ _ (wsim_ML _ _ _ _ _ Hw Hw' ML)). intros a' d'. unfold sheet1. reflexivity. }
+    assert (Hsup : sdelta_ok (w_sup w) (w_sup w') (fun _ => 0) = true).
+    { apply (sdelta_ok_intro _ _ zero1); [exact (wsim_MS _ _ _ _ _ Hw Hw' MS)|reflexivity]. }
+    unfold c02_swap. cbv zeta. wnorm Hw Hw'.
     rewrite !Es, !Eb. rewrite RP, pools_eqb_refl, Hsup, HB, Hdlb.
     destruct Hpos as (Hp1 & Hp2). apply Z.ltb_lt in Hp1. apply Z.ltb_lt in Hp2. rewrite Hp1, Hp2.
     destruct (din =? std).
@@ -273,6 +368,7 @@ Proof.
     destruct (lpt_of_denoms_inv _ _ _ _ Hn1) as (_ & [(Hx & _)|(_ & _ & Hpo1)]); [congruence|].
     destruct (lpt_of_denoms_inv _ _ _ _ Hn2) as (_ & [(_ & Hpo2)|(Hx & _)]); [|congruence].
     pose proof Hpo1 as Hl1. pose proof Hpo2 as Hl2.
+    destruct (rcpt_not_leg_double _ _ _ _ _ _ Hdi Hdo Hpo1 Hpo2 Hr) as (Hrn1 & Hrn2).
     apply pool_of_In in Hpo1. apply pool_of_In in Hpo2.
     assert (Hn12 : n1 <> n2).
     { intros Heq. subst n2. apply Hdd. exact (reg_same_n _ _ _ _ I Hpo1 Hpo2). }
@@ -296,16 +392,16 @@ Proof.
     assert (Es : bal (led s) a din - bal (led s') a din = sold) by lia.
     assert (Eb : bal (led s') r dout - bal (led s) r dout = bought) by lia.
     assert (Em : bal (led s) (pool_acct n1) std - bal (led s') (pool_acct n1) std = mid) by lia.
-    assert (Hsheet : delta_ok (led s) (led s')
+    assert (Hsheet : delta_ok (w_led w) (w_led w')
               (fun a' d' => ind (at_ a din a' d') (- sold) + ind (at_ r dout a' d') bought
                             + ind (at_ (pool_acct n1) din a' d') sold + ind (at_ (pool_acct n1) std a' d') (- mid)
                             + ind (at_ (pool_acct n2) std a' d') mid + ind (at_ (pool_acct n2) dout a' d') (- bought)) = true).
-    { apply (delta_ok_intro _ _ _ _ ML'). intros a' d'. unfold sheet2. reflexivity. }
-    assert (Hsup : sdelta_ok (sup s) (sup s') (fun _ => 0) = true).
-    { apply (sdelta_ok_intro _ _ (fun d => zero1 d + zero1 d)); [exact MS|reflexivity]. }
-    unfold c02_swap, world_of. cbn [w_led w_sup w_pools w_now]. cbv zeta.
+    { apply (delta_ok_intro _ _ _ _ (wsim_ML _ _ _ _ _ Hw Hw' ML')). intros a' d'. unfold sheet2. reflexivity. }
+    assert (Hsup : sdelta_ok (w_sup w) (w_sup w') (fun _ => 0) = true).
+    { apply (sdelta_ok_intro _ _ (fun d => zero1 d + zero1 d)); [exact (wsim_MS _ _ _ _ _ Hw Hw' MS)|reflexivity]. }
+    unfold c02_swap. cbv zeta. wnorm Hw Hw'.
     unfold pool_lookup. change (get din (pools s)) with (pool_of s din). change (get dout (pools s)) with (pool_of s dout).
-    rewrite Hl1, Hl2.
+    rewrite Hl1, Hl2. cbv beta iota. wnorm Hw Hw'.
     rewrite !Es, !Eb, !Em. rewrite RP2, RP1, pools_eqb_refl, Hsup, HB, Hdlb.
     destruct Hpos as (Hp1' & Hp2' & Hp3'). apply Z.ltb_lt in Hp1'. apply Z.ltb_lt in Hp2'. apply Z.ltb_lt in Hp3'.
     rewrite Hp1', Hp2', Hp3', Hsheet, Ed1, Ed2. reflexivity.
@@ -323,37 +419,38 @@ Proof. reflexivity. Qed.
 Lemma ind_true x : ind true x = x.
 Proof. reflexivity. Qed.
 
-Lemma c02_add_model s a dtok max_tok exact min_liq deadline s' res :
+Lemma c02_add_model s a dtok max_tok exact min_liq deadline s' res w w' :
+  wsim w s -> wsim w' s' ->
   Inv s -> is_pool_acct a = false -> a <> acct_feecol -> a <> acct_module -> p_cdenom (par s) <= 1000 ->
   exec_add s a dtok max_tok exact min_liq deadline = Ret (s', res) ->
-  c02_add (par s) a dtok max_tok exact min_liq deadline (world_of s) (world_of s') = 0.
+  c02_add (par s) a dtok max_tok exact min_liq deadline w w' = 0.
 Proof.
-  intros I Hs Hfc Hmod Hcd E.
+  intros Hw Hw' I Hs Hfc Hmod Hcd E.
   destruct (exec_add_spec _ _ _ _ _ _ _ _ _ E) as (Hdl & Hmax & Hex & Hstd & _ & mint & _ & Hm & AE).
   apply not_pool_le in Hs.
   assert (Hdlb : (now s <=? deadline) = true) by (apply Z.leb_le; exact Hdl).
-  unfold c02_add, world_of. cbn [w_led w_sup w_pools w_now]. unfold pool_lookup.
+  unfold c02_add. wnorm Hw Hw'. unfold pool_lookup.
   destruct AE as [tax Hp Htax _ Hmx Hml M Hps _ | n0 Hp He Hmx Hml M R | n0 dep Hp He HS0 HT0 HL0 Hmt Hd Hml Hdm M R].
   - (* creation *)
     pose proof (inv_seq _ I) as Hseq.
     rewrite Hps. rewrite (get_app_new (pools s) dtok (seq s) Hp).
-    change (get dtok (pools s)) with (pool_of s dtok). rewrite Hp. cbv zeta. rewrite !ind_true.
+    change (get dtok (pools s)) with (pool_of s dtok). rewrite Hp. cbv beta iota zeta. wnorm Hw Hw'. rewrite !ind_true.
     destruct M as (ML & MS & _).
     pose proof (ML acct_feecol (p_cdenom (par s))) as E1. pose proof (MS (lpt (seq s))) as E2.
     pose proof (ML (pool_acct (seq s)) dtok) as E3.
     unfold fee_sheet, add_sheet in E1, E3. unfold lpt_delta in E2. ev_ind E1. ev_ind E2. ev_ind E3.
     assert (Et : bal (led s') acct_feecol (p_cdenom (par s)) - bal (led s) acct_feecol (p_cdenom (par s)) = tax) by lia.
-    assert (Em : supv (sup s') (lpt (seq s)) - supv (sup s) (lpt (seq s)) = exact) by (rewrite !supv_supply; lia).
+    assert (Em : supply s' (lpt (seq s)) - supply s (lpt (seq s)) = exact) by lia.
     assert (Ed : bal (led s') (pool_acct (seq s)) dtok - bal (led s) (pool_acct (seq s)) dtok = max_tok) by lia.
     rewrite !Et, !Em, !Ed.
     match goal with |- context [delta_ok ?l ?l' ?f] =>
       assert (Hsheet : delta_ok l l' f = true)
     end.
-    { apply (delta_ok_intro _ _ _ _ ML). intros a' d'. unfold fee_sheet, add_sheet. lia. }
+    { apply (delta_ok_intro _ _ _ _ (wsim_ML _ _ _ _ _ Hw Hw' ML)). intros a' d'. unfold fee_sheet, add_sheet. lia. }
     match goal with |- context [sdelta_ok ?l ?l' ?f] =>
       assert (Hsup : sdelta_ok l l' f = true)
     end.
-    { apply (sdelta_ok_intro _ _ _ _ MS). intros d'. unfold lpt_delta. lia. }
+    { apply (sdelta_ok_intro _ _ _ _ (wsim_MS _ _ _ _ _ Hw Hw' MS)). intros d'. unfold lpt_delta. lia. }
     rewrite Hsheet, Hsup, pools_eqb_refl, Hdlb.
     replace (0 <=? tax) with true by (symmetry; apply Z.leb_le; lia).
     replace (tax <=? p_camt (par s)) with true by (symmetry; apply Z.leb_le; lia).
@@ -364,23 +461,23 @@ Proof.
     reflexivity.
   - (* first deposit into an emptied pool *)
     destruct R as (RP & _). rewrite RP.
-    change (get dtok (pools s)) with (pool_of s dtok). rewrite Hp. cbv zeta. rewrite !ind_false.
+    change (get dtok (pools s)) with (pool_of s dtok). rewrite Hp. cbv beta iota zeta. wnorm Hw Hw'. rewrite !ind_false.
     destruct (inv_rng _ I _ _ (pool_of_In _ _ _ Hp)) as (Hn0 & _).
     destruct M as (ML & MS & _).
     pose proof (MS (lpt n0)) as E2. pose proof (ML (pool_acct n0) dtok) as E3.
     unfold add_sheet in E3. unfold lpt_delta in E2. ev_ind E2. ev_ind E3.
-    assert (Em : supv (sup s') (lpt n0) - supv (sup s) (lpt n0) = exact) by (rewrite !supv_supply; lia).
+    assert (Em : supply s' (lpt n0) - supply s (lpt n0) = exact) by lia.
     assert (Ed : bal (led s') (pool_acct n0) dtok - bal (led s) (pool_acct n0) dtok = max_tok) by lia.
     rewrite !Em, !Ed.
     match goal with |- context [delta_ok ?l ?l' ?f] =>
       assert (Hsheet : delta_ok l l' f = true)
     end.
-    { apply (delta_ok_intro _ _ _ _ ML). intros a' d'. unfold add_sheet.
+    { apply (delta_ok_intro _ _ _ _ (wsim_ML _ _ _ _ _ Hw Hw' ML)). intros a' d'. unfold add_sheet.
       change (- 0) with 0. rewrite !ind_zero. lia. }
     match goal with |- context [sdelta_ok ?l ?l' ?f] =>
       assert (Hsup : sdelta_ok l l' f = true)
     end.
-    { apply (sdelta_ok_intro _ _ _ _ MS). intros d'. unfold lpt_delta. change (- (0 - 0)) with 0. rewrite ind_zero. lia. }
+    { apply (sdelta_ok_intro _ _ _ _ (wsim_MS _ _ _ _ _ Hw Hw' MS)). intros d'. unfold lpt_delta. change (- (0 - 0)) with 0. rewrite ind_zero. lia. }
     rewrite Hsheet, Hsup, pools_eqb_refl, Hdlb.
     replace (0 <=? exact) with true by (symmetry; apply Z.leb_le; lia).
     replace (0 <? max_tok) with true by (symmetry; apply Z.ltb_lt; lia).
@@ -389,12 +486,12 @@ Proof.
     reflexivity.
   - (* proportional deposit *)
     destruct R as (RP & _). rewrite RP.
-    change (get dtok (pools s)) with (pool_of s dtok). rewrite Hp. cbv zeta. rewrite !ind_false.
+    change (get dtok (pools s)) with (pool_of s dtok). rewrite Hp. cbv beta iota zeta. wnorm Hw Hw'. rewrite !ind_false.
     destruct (inv_rng _ I _ _ (pool_of_In _ _ _ Hp)) as (Hn0 & _).
     destruct M as (ML & MS & _).
     pose proof (MS (lpt n0)) as E2. pose proof (ML (pool_acct n0) dtok) as E3.
     unfold add_sheet in E3. unfold lpt_delta in E2. ev_ind E2. ev_ind E3.
-    assert (Em : supv (sup s') (lpt n0) - supv (sup s) (lpt n0) = mint) by (rewrite !supv_supply; lia).
+    assert (Em : supply s' (lpt n0) - supply s (lpt n0) = mint) by lia.
     assert (Ed : bal (led s') (pool_acct n0) dtok - bal (led s) (pool_acct n0) dtok = dep) by lia.
     rewrite !Em, !Ed.
     assert (Hdep : 0 < dep).
@@ -405,12 +502,12 @@ Proof.
     match goal with |- context [delta_ok ?l ?l' ?f] =>
       assert (Hsheet : delta_ok l l' f = true)
     end.
-    { apply (delta_ok_intro _ _ _ _ ML). intros a' d'. unfold add_sheet.
+    { apply (delta_ok_intro _ _ _ _ (wsim_ML _ _ _ _ _ Hw Hw' ML)). intros a' d'. unfold add_sheet.
       change (- 0) with 0. rewrite !ind_zero. lia. }
     match goal with |- context [sdelta_ok ?l ?l' ?f] =>
       assert (Hsup : sdelta_ok l l' f = true)
     end.
-    { apply (sdelta_ok_intro _ _ _ _ MS). intros d'. unfold lpt_delta. change (- (0 - 0)) with 0. rewrite ind_zero. lia. }
+    { apply (sdelta_ok_intro _ _ _ _ (wsim_MS _ _ _ _ _ Hw Hw' MS)). intros d'. unfold lpt_delta. change (- (0 - 0)) with 0. rewrite ind_zero. lia. }
     rewrite Hsheet, Hsup, pools_eqb_refl, Hdlb.
     replace (0 <=? mint) with true by (symmetry; apply Z.leb_le; lia).
     replace (0 <? dep) with true by (symmetry; apply Z.ltb_lt; lia).
@@ -422,17 +519,18 @@ Qed.
 Lemma cp_of_list_pools s n cp : cp_of s n = Some cp -> cp_of_list (pools s) n = Some cp.
 Proof. auto. Qed.
 
-Lemma c02_remove_model s a dlpt w min_std min_tok deadline s' res :
+Lemma c02_remove_model s a dlpt wd min_std min_tok deadline s' res w w' :
+  wsim w s -> wsim w' s' ->
   Inv s -> is_pool_acct a = false ->
-  exec_remove s a dlpt w min_std min_tok deadline = Ret (s', res) ->
-  c02_remove a dlpt w min_std min_tok deadline (world_of s) (world_of s') = 0.
+  exec_remove s a dlpt wd min_std min_tok deadline = Ret (s', res) ->
+  c02_remove a dlpt wd min_std min_tok deadline w w' = 0.
 Proof.
-  intros I Hs E. apply not_pool_le in Hs.
+  intros Hw Hw' I Hs E. apply not_pool_le in Hs.
   pose proof (exec_remove_spec _ _ _ _ _ _ _ _ _ E) as X. cbv zeta in X.
-  destruct X as (cp & a1 & a2 & Hc & Hdl & Hw & _ & _ & Hm1 & Hm2 & H01 & H02 & _ & M & R).
+  destruct X as (cp & a1 & a2 & Hc & Hdl & Hwd & _ & _ & Hm1 & Hm2 & H01 & H02 & _ & M & R).
   assert (Hdlb : (now s <=? deadline) = true) by (apply Z.leb_le; exact Hdl).
-  unfold c02_remove, world_of. cbn [w_led w_sup w_pools w_now]. cbv zeta.
-  rewrite (cp_of_list_pools _ _ _ Hc).
+  unfold c02_remove. cbv zeta. wnorm Hw Hw'.
+  rewrite (cp_of_list_pools _ _ _ Hc). cbv beta iota. wnorm Hw Hw'.
   set (n := dlpt - 1000) in *.
   pose proof (cp_of_list_In _ _ _ Hc) as Hin. fold (pools s) in Hin.
   destruct (inv_rng _ I _ _ Hin) as (Hn & Hcp).
@@ -443,9 +541,9 @@ Proof.
   assert (Et : bal (led s) (pool_acct n) cp - bal (led s') (pool_acct n) cp = a2) by lia.
   rewrite !Es, !Et.
   match goal with |- context [delta_ok ?l ?l' ?f] => assert (Hsheet : delta_ok l l' f = true) end.
-  { apply (delta_ok_intro _ _ _ _ ML). intros a' d'. unfold remove_sheet. lia. }
+  { apply (delta_ok_intro _ _ _ _ (wsim_ML _ _ _ _ _ Hw Hw' ML)). intros a' d'. unfold remove_sheet. lia. }
   match goal with |- context [sdelta_ok ?l ?l' ?f] => assert (Hsup : sdelta_ok l l' f = true) end.
-  { apply (sdelta_ok_intro _ _ _ _ MS). intros d'. unfold lpt_delta. reflexivity. }
+  { apply (sdelta_ok_intro _ _ _ _ (wsim_MS _ _ _ _ _ Hw Hw' MS)). intros d'. unfold lpt_delta. reflexivity. }
   rewrite Hsheet, Hsup, RP, pools_eqb_refl, Hdlb.
   replace (0 <=? a1) with true by (symmetry; apply Z.leb_le; lia).
   replace (0 <=? a2) with true by (symmetry; apply Z.leb_le; lia).
@@ -454,25 +552,26 @@ Proof.
   reflexivity.
 Qed.
 
-Lemma c02_add_uni_model s a cp dtok exact min_liq deadline s' res :
+Lemma c02_add_uni_model s a cp dtok exact min_liq deadline s' res w w' :
+  wsim w s -> wsim w' s' ->
   Inv s -> is_pool_acct a = false ->
   exec_add_uni s a cp dtok exact min_liq deadline = Ret (s', res) ->
-  c02_add_uni a cp dtok exact min_liq deadline (world_of s) (world_of s') = 0.
+  c02_add_uni a cp dtok exact min_liq deadline w w' = 0.
 Proof.
-  intros I Hs E. apply not_pool_le in Hs.
+  intros Hw Hw' I Hs E. apply not_pool_le in Hs.
   destruct (exec_add_uni_spec _ _ _ _ _ _ _ _ _ E) as (n & mint & Hp & Hdt & Hdl & Hex & _ & _ & Hml & Hm0 & _ & M & R).
   assert (Hdlb : (now s <=? deadline) = true) by (apply Z.leb_le; exact Hdl).
-  unfold c02_add_uni, world_of. cbn [w_led w_sup w_pools w_now]. cbv zeta.
-  unfold pool_lookup. change (get cp (pools s)) with (pool_of s cp). rewrite Hp.
+  unfold c02_add_uni. cbv zeta. wnorm Hw Hw'.
+  unfold pool_lookup. change (get cp (pools s)) with (pool_of s cp). rewrite Hp. cbv beta iota. wnorm Hw Hw'.
   destruct (inv_rng _ I _ _ (pool_of_In _ _ _ Hp)) as (Hn & Hcp).
   destruct M as (ML & MS & _). destruct R as (RP & _).
   pose proof (MS (lpt n)) as E2. unfold lpt_delta in E2. ev_ind E2.
-  assert (Em : supv (sup s') (lpt n) - supv (sup s) (lpt n) = mint) by (rewrite !supv_supply; lia).
+  assert (Em : supply s' (lpt n) - supply s (lpt n) = mint) by lia.
   rewrite !Em.
   match goal with |- context [delta_ok ?l ?l' ?f] => assert (Hsheet : delta_ok l l' f = true) end.
-  { apply (delta_ok_intro _ _ _ _ ML). intros a' d'. unfold uni_add_sheet. lia. }
+  { apply (delta_ok_intro _ _ _ _ (wsim_ML _ _ _ _ _ Hw Hw' ML)). intros a' d'. unfold uni_add_sheet. lia. }
   match goal with |- context [sdelta_ok ?l ?l' ?f] => assert (Hsup : sdelta_ok l l' f = true) end.
-  { apply (sdelta_ok_intro _ _ _ _ MS). intros d'. unfold lpt_delta. reflexivity. }
+  { apply (sdelta_ok_intro _ _ _ _ (wsim_MS _ _ _ _ _ Hw Hw' MS)). intros d'. unfold lpt_delta. reflexivity. }
   rewrite Hsheet, Hsup, RP, pools_eqb_refl, Hdlb.
   replace (0 <=? mint) with true by (symmetry; apply Z.leb_le; lia).
   replace (min_liq <=? mint) with true by (symmetry; apply Z.leb_le; lia).
@@ -481,25 +580,26 @@ Proof.
   reflexivity.
 Qed.
 
-Lemma c02_remove_uni_model s a cp dtok min_tok w deadline s' res :
+Lemma c02_remove_uni_model s a cp dtok min_tok wd deadline s' res w w' :
+  wsim w s -> wsim w' s' ->
   Inv s -> is_pool_acct a = false ->
-  exec_remove_uni s a cp dtok min_tok w deadline = Ret (s', res) ->
-  c02_remove_uni a cp dtok min_tok w deadline (world_of s) (world_of s') = 0.
+  exec_remove_uni s a cp dtok min_tok wd deadline = Ret (s', res) ->
+  c02_remove_uni a cp dtok min_tok wd deadline w w' = 0.
 Proof.
-  intros I Hs E. apply not_pool_le in Hs.
-  destruct (exec_remove_uni_spec _ _ _ _ _ _ _ _ _ E) as (n & target & Hp & Hdt & Hdl & Hw & _ & Hmt & Hm0 & _ & M & R).
+  intros Hw Hw' I Hs E. apply not_pool_le in Hs.
+  destruct (exec_remove_uni_spec _ _ _ _ _ _ _ _ _ E) as (n & target & Hp & Hdt & Hdl & Hwd & _ & Hmt & Hm0 & _ & M & R).
   assert (Hdlb : (now s <=? deadline) = true) by (apply Z.leb_le; exact Hdl).
-  unfold c02_remove_uni, world_of. cbn [w_led w_sup w_pools w_now]. cbv zeta.
-  unfold pool_lookup. change (get cp (pools s)) with (pool_of s cp). rewrite Hp.
+  unfold c02_remove_uni. cbv zeta. wnorm Hw Hw'.
+  unfold pool_lookup. change (get cp (pools s)) with (pool_of s cp). rewrite Hp. cbv beta iota. wnorm Hw Hw'.
   destruct (inv_rng _ I _ _ (pool_of_In _ _ _ Hp)) as (Hn & Hcp).
   destruct M as (ML & MS & _). destruct R as (RP & _).
   pose proof (ML (pool_acct n) dtok) as E1. unfold uni_remove_sheet in E1. ev_ind E1.
   assert (Et : bal (led s) (pool_acct n) dtok - bal (led s') (pool_acct n) dtok = target) by lia.
   rewrite !Et.
   match goal with |- context [delta_ok ?l ?l' ?f] => assert (Hsheet : delta_ok l l' f = true) end.
-  { apply (delta_ok_intro _ _ _ _ ML). intros a' d'. unfold uni_remove_sheet. lia. }
+  { apply (delta_ok_intro _ _ _ _ (wsim_ML _ _ _ _ _ Hw Hw' ML)). intros a' d'. unfold uni_remove_sheet. lia. }
   match goal with |- context [sdelta_ok ?l ?l' ?f] => assert (Hsup : sdelta_ok l l' f = true) end.
-  { apply (sdelta_ok_intro _ _ _ _ MS). intros d'. unfold lpt_delta. reflexivity. }
+  { apply (sdelta_ok_intro _ _ _ _ (wsim_MS _ _ _ _ _ Hw Hw' MS)). intros d'. unfold lpt_delta. reflexivity. }
   rewrite Hsheet, Hsup, RP, pools_eqb_refl, Hdlb.
   replace (0 <=? target) with true by (symmetry; apply Z.leb_le; lia).
   replace (min_tok <=? target) with true by (symmetry; apply Z.leb_le; lia).
@@ -509,17 +609,24 @@ Proof.
 Qed.
 
 (** ** C02: the predicate on a model step *)
-Theorem c02_step_model_ok s m s' r o :
+
+(** what may be signed and said: by users (or the authority), a creation fee never in an LPT denom *)
+Definition msg_ok (m : msg) : Prop :=
+  signer_ok m /\ match m with MUpdateParams _ q => p_cdenom q <= 1000 | _ => True end.
+
+Lemma c02_main_sim_ok s m s' r o w w' :
+  wsim w s -> wsim w' s' ->
   Inv s -> signer_ok m -> p_cdenom (par s) <= 1000 ->
   exec s m = Ret (s', r) -> o_code o = 0 ->
-  c02_step (par s) m o (world_of s) (world_of s') = 0.
+  c02_main (par s) m o w w' = 0.
 Proof.
-  intros I Hs Hcd E Ho. unfold c02_step. rewrite Ho. change (0 =? 0) with true. cbn [negb].
+  intros Hw Hw' I Hs Hcd E Ho. unfold c02_main. rewrite Ho. change (0 =? 0) with true. cbn [negb].
   destruct m as [buy sender rcpt din ain dout aout deadline | sender dtok max_tok exact min_liq deadline
-                | sender dlpt w min_std min_tok deadline | sender cp0 dtok exact min_liq deadline
-                | sender cp0 dtok min_tok w deadline | from to d amt | dt];
+                | sender dlpt wd min_std min_tok deadline | sender cp0 dtok exact min_liq deadline
+                | sender cp0 dtok min_tok wd deadline | from to d amt | dt | auth q];
     unfold signer_ok in Hs; simpl in Hs, E.
-  - destruct (is_pool_acct rcpt) eqn:Hr; [reflexivity|].
+  - rewrite (ws_pools _ _ Hw).
+    destruct (rcpt_is_leg_pool (pools s) rcpt din dout) eqn:Hr; [reflexivity|].
     destruct Hs as (Hs & _). eapply c02_swap_model; eassumption.
   - destruct Hs as (Hs & Hf & Hm). eapply c02_add_model; eassumption.
   - destruct Hs as (Hs & _). eapply c02_remove_model; eassumption.
@@ -527,19 +634,58 @@ Proof.
   - destruct Hs as (Hs & _). eapply c02_remove_uni_model; eassumption.
   - destruct (exec_send_spec _ _ _ _ _ _ _ E) as (_ & _ & _ & M & R).
     destruct M as (ML & MS & _). destruct R as (RP & _).
-    unfold world_of. cbn [w_led w_sup w_pools].
-    rewrite (delta_ok_intro _ _ _ (fun a' d' => ind (at_ from d a' d') (- amt) + ind (at_ to d a' d') amt) ML) by reflexivity.
-    rewrite (sdelta_ok_intro _ _ _ (fun _ => 0) MS) by reflexivity.
+    rewrite (ws_pools _ _ Hw), (ws_pools _ _ Hw').
+    rewrite (delta_ok_intro _ _ _ (fun a' d' => ind (at_ from d a' d') (- amt) + ind (at_ to d a' d') amt)
+               (wsim_ML _ _ _ _ _ Hw Hw' ML)) by reflexivity.
+    rewrite (sdelta_ok_intro _ _ _ (fun _ => 0) (wsim_MS _ _ _ _ _ Hw Hw' MS)) by reflexivity.
     rewrite RP, pools_eqb_refl. reflexivity.
   - inversion E; subst.
-    change (world_of {| led := led s; sup := sup s; pools := pools s; seq := seq s; now := now s + dt; par := par s |})
-      with (mkWorld (led s) (sup s) (pools s) (now s + dt)).
-    unfold unchanged, world_of. cbn [w_led w_sup w_pools].
+    assert (ML : forall a d, bal (led {| led := led s; sup := sup s; pools := pools s; seq := seq s; now := now s + dt; par := par s |}) a d
+                             = bal (led s) a d + zero2 a d) by (intros; unfold zero2; simpl; lia).
+    assert (MS : forall d, supply {| led := led s; sup := sup s; pools := pools s; seq := seq s; now := now s + dt; par := par s |} d
+                           = supply s d + zero1 d) by (intros; unfold zero1, supply; simpl; lia).
+    unfold unchanged. rewrite (ws_pools _ _ Hw), (ws_pools _ _ Hw'). cbn [pools].
     rewrite pools_eqb_refl.
-    rewrite (delta_ok_intro (led s) (led s) (fun _ _ => 0) (fun _ _ => 0)) by (intros; lia).
-    rewrite (sdelta_ok_intro (sup s) (sup s) (fun _ => 0) (fun _ => 0)) by (intros; lia).
+    rewrite (delta_ok_intro _ _ _ (fun _ _ => 0) (wsim_ML _ _ _ _ _ Hw Hw' ML)) by reflexivity.
+    rewrite (sdelta_ok_intro _ _ _ (fun _ => 0) (wsim_MS _ _ _ _ _ Hw Hw' MS)) by reflexivity.
     reflexivity.
+  - destruct (exec_update_params_spec _ _ _ _ _ E) as (_ & Ha & Hv & HLed & HSup & (RP & _) & _ & _).
+    assert (ML : forall a d, bal (led s') a d = bal (led s) a d + zero2 a d) by (intros; rewrite HLed; unfold zero2; lia).
+    assert (MS : forall d, supply s' d = supply s d + zero1 d) by (intros; unfold supply, zero1; rewrite HSup; lia).
+    unfold unchanged. rewrite (ws_pools _ _ Hw), (ws_pools _ _ Hw'), RP.
+    rewrite pools_eqb_refl.
+    rewrite (delta_ok_intro _ _ _ (fun _ _ => 0) (wsim_ML _ _ _ _ _ Hw Hw' ML)) by reflexivity.
+    rewrite (sdelta_ok_intro _ _ _ (fun _ => 0) (wsim_MS _ _ _ _ _ Hw Hw' MS)) by reflexivity.
+    rewrite Hv. subst auth. rewrite Z.eqb_refl. reflexivity.
 Qed.
+
+Lemma par_expected_model s m s' r o w :
+  wsim w s -> exec s m = Ret (s', r) -> o_code o = 0 -> par_expected m o w = par s'.
+Proof.
+  intros Hw E Ho. pose proof (step_par s m) as SP. rewrite (step_Ret _ _ _ _ E) in SP.
+  unfold par_expected. rewrite (ws_par _ _ Hw).
+  destruct m; try (destruct SP as [->|(p & Hm & _)]; [reflexivity|discriminate]).
+  rewrite Ho. change (0 =? 0) with true. cbv iota.
+  simpl in E. destruct (exec_update_params_spec _ _ _ _ _ E) as (_ & _ & _ & _ & _ & _ & _ & Hp). symmetry. exact Hp.
+Qed.
+
+Theorem c02_step_sim_ok s m s' r o w w' :
+  wsim w s -> wsim w' s' ->
+  Inv s -> signer_ok m -> p_cdenom (par s) <= 1000 ->
+  exec s m = Ret (s', r) -> o_code o = 0 ->
+  c02_step (par s) m o w w' = 0.
+Proof.
+  intros Hw Hw' I Hs Hcd E Ho. unfold c02_step.
+  rewrite (c02_main_sim_ok s m s' r o w w' Hw Hw' I Hs Hcd E Ho).
+  rewrite (par_expected_model s m s' r o w Hw E Ho). rewrite (ws_par _ _ Hw').
+  rewrite par_eqb_refl. reflexivity.
+Qed.
+
+Theorem c02_step_model_ok s m s' r o :
+  Inv s -> signer_ok m -> p_cdenom (par s) <= 1000 ->
+  exec s m = Ret (s', r) -> o_code o = 0 ->
+  c02_step (par s) m o (world_of s) (world_of s') = 0.
+Proof. intros. eapply c02_step_sim_ok; eauto using wsim_world_of. Qed.
 
 (** ** the model never fails with the outcome "ok", so code 0 means success *)
 Definition nok {A} (r : res A) : Prop := r <> Fail Ok.
@@ -613,6 +759,7 @@ Proof.
   - unfold exec_remove_uni. nok_all; try nok_leaf.
   - unfold exec_send. nok_all; try nok_leaf.
   - apply ret_nok.
+  - unfold exec_update_params. nok_all.
 Qed.
 
 Lemma code_zero_Ret s m : code_of s m = 0 -> exists s' r, exec s m = Ret (s', r).
@@ -622,7 +769,7 @@ Proof.
 Qed.
 
 (** ** whole histories: the observation the model itself would give, and both predicates *)
-Definition obs_of (s : state) (m : msg) : obs := mkObs (code_of s m) (resp_of s m) [] [] (pools (step s m)).
+Definition obs_of (s : state) (m : msg) : obs := mkObs (code_of s m) (resp_of s m) [] [] (pools (step s m)) (par (step s m)).
 
 Fixpoint prop_codes (s : state) (ms : list msg) : list (Z * Z) :=
   match ms with
@@ -632,22 +779,27 @@ Fixpoint prop_codes (s : state) (ms : list msg) : list (Z * Z) :=
        c02_step (par s) m (obs_of s m) (world_of s) (world_of (step s m))) :: prop_codes (step s m) ms'
   end.
 
+Lemma msg_ok_cdenom s m : msg_ok m -> p_cdenom (par s) <= 1000 -> p_cdenom (par (step s m)) <= 1000.
+Proof.
+  intros (_ & Hq) Hcd. destruct (step_par s m) as [->|(p & -> & _ & ->)]; [exact Hcd|exact Hq].
+Qed.
+
 Theorem model_history_passes ms : forall s,
-  Inv s -> Forall signer_ok ms -> p_cdenom (par s) <= 1000 ->
+  Inv s -> Forall msg_ok ms -> p_cdenom (par s) <= 1000 ->
   Forall (fun c => c = (0, 0)) (prop_codes s ms).
 Proof.
   induction ms as [|m ms IH]; intros s I Hok Hcd; simpl; [constructor|].
-  inversion Hok as [|? ? Hm Hms]; subst.
+  inversion Hok as [|? ? Hm Hms]; subst. pose proof Hm as (Hsg & _).
   constructor.
   - destruct (exec s m) as [[s' r]|f] eqn:E.
     + assert (Hc : o_code (obs_of s m) = 0) by (unfold obs_of, code_of; simpl; rewrite E; reflexivity).
       rewrite (step_Ret _ _ _ _ E).
-      rewrite (c01_step_model_ok s m s' r _ I (signer_sender_ok _ Hm) E Hc).
-      rewrite (c02_step_model_ok s m s' r _ I Hm Hcd E Hc). reflexivity.
+      rewrite (c01_step_model_ok s m s' r _ I (signer_sender_ok _ Hsg) E Hc).
+      rewrite (c02_step_model_ok s m s' r _ I Hsg Hcd E Hc). reflexivity.
     + assert (Hc : o_code (obs_of s m) <> 0).
       { intros Hz. destruct (code_zero_Ret s m Hz) as (s' & r & E'). congruence. }
       rewrite (failed_step_changes_nothing _ _ _ E).
-      rewrite (c01_step_model_fail s m f _ I (signer_sender_ok _ Hm) E Hc).
+      rewrite (c01_step_model_fail s m f _ I (signer_sender_ok _ Hsg) E Hc).
       rewrite (c02_step_model_fail s m f _ E Hc). reflexivity.
-  - apply IH; [apply Inv_step; exact I|exact Hms|rewrite step_par; exact Hcd].
+  - apply IH; [apply Inv_step; exact I|exact Hms|apply msg_ok_cdenom; assumption].
 Qed.
